@@ -354,7 +354,7 @@ func registerSDK(e *Engine) {
 		p.checkMarshalTimes(val)
 		ln := p.freshInt("bloblen", bi(0), bi(1<<20))
 		p.trace = append(p.trace, "marshal "+et.String())
-		return VBlob{Val: val, Ty: et, Len: ln}
+		return VBlob{Val: resolveCells(val), Ty: et, Len: ln}
 	}
 	in[BC+"MustMarshal"] = marshal
 	in[BC+"Marshal"] = func(p *Path, a []Value) Value { return tuple(marshal(p, a), nilErr) }
@@ -580,9 +580,49 @@ func isZeroVal(v Value) bool {
 }
 
 // mergeProto: result of unmarshalling a message with decoded value nv into a target holding old.
+// resolveCells: deep copy of a value with every math.Int read through its cell and detached from
+// it (what Marshal writes are bytes: later in-place changes of the big.Int do not reach them).
+func resolveCells(v Value) Value {
+	switch x := v.(type) {
+	case VBig:
+		c := x.cur()
+		c.Cell = nil
+		return c
+	case *VStruct:
+		fs := make([]Value, len(x.F))
+		for i := range fs {
+			fs[i] = resolveCells(x.F[i])
+		}
+		return &VStruct{F: fs}
+	case VSlice:
+		if x.Nil || x.Len == 0 {
+			return x
+		}
+		es := x.elems()
+		out := make([]Value, len(es))
+		for i := range es {
+			out[i] = resolveCells(es[i])
+		}
+		return VSlice{Obj: &Obj{V: &VArray{E: out}, label: "marshalled-repeated"}, Len: len(out), Cap: len(out)}
+	}
+	return v
+}
+
+// mergeProto decodes nv (a cell-free message value from a blob) into the target's old value.
 func mergeProto(old, nv Value) Value {
+	if nb, ok := nv.(VBig); ok {
+		// math.Int.Unmarshal: allocate a big.Int only if the target has none, then set it in place
+		if ob, ok := old.(VBig); ok && !ob.Nil && ob.Cell != nil && !nb.Nil {
+			ob.Cell.T = nb.T
+			return VBig{T: nb.T, Cell: ob.Cell}
+		}
+		if nb.Nil {
+			return nb
+		}
+		return VBig{T: nb.T, Cell: &bigCell{T: nb.T}}
+	}
 	if isZeroVal(old) {
-		return nv
+		return freshDecode(nv) // fresh target: plain assignment, every math.Int gets its own big.Int
 	}
 	switch n := nv.(type) {
 	case VInt:
@@ -610,7 +650,10 @@ func mergeProto(old, nv Value) Value {
 			if n.Nil || n.Len == 0 {
 				return o
 			}
-			es := append(append([]Value{}, o.elems()...), n.elems()...)
+			es := append([]Value{}, o.elems()...)
+			for _, e := range n.elems() {
+				es = append(es, freshDecode(e))
+			}
 			return VSlice{Obj: &Obj{V: &VArray{E: es}, label: "merged-repeated"}, Len: len(es), Cap: len(es)}
 		}
 	case VPtr:
@@ -619,5 +662,34 @@ func mergeProto(old, nv Value) Value {
 		}
 	}
 	// custom types (math.Int/Dec), times: always present on the wire -> replaced
+	return nv
+}
+
+// freshDecode: nv decoded into a zero target — the same value, with a newly allocated big.Int
+// (cell) behind every non-nil math.Int.
+func freshDecode(nv Value) Value {
+	switch n := nv.(type) {
+	case VBig:
+		if n.Nil {
+			return n
+		}
+		return VBig{T: n.T, Cell: &bigCell{T: n.T}}
+	case *VStruct:
+		fs := make([]Value, len(n.F))
+		for i := range fs {
+			fs[i] = freshDecode(n.F[i])
+		}
+		return &VStruct{F: fs}
+	case VSlice:
+		if n.Nil || n.Len == 0 {
+			return nv
+		}
+		es := n.elems()
+		out := make([]Value, len(es))
+		for i := range es {
+			out[i] = freshDecode(es[i])
+		}
+		return VSlice{Obj: &Obj{V: &VArray{E: out}, label: "decoded-repeated"}, Len: len(out), Cap: len(out)}
+	}
 	return nv
 }
